@@ -413,13 +413,17 @@ impl Property for C01 {
          matrix and an exact similarity (D4, 2^k, integer translation up to 2^40). Oracle: exact DE-9IM by cell \
          decomposition of the joint arrangement. Checked: concrete-type relate, enum relate, transpose, and 2 \
          re-representations per operand. Non-trivial = envelopes intersect AND some node or sub-segment of the joint \
-         arrangement belongs to both operands (they really touch or cross). Distinct = distinct serialised case."
+         arrangement belongs to both operands (they really touch or cross). Distinct = distinct serialised case. Sub-families \
+         (1 case in 17 each): thin wedges at magnitude 2^26..2^28 (and f32-sized, with relate::<f32>), and SEGMENTS IN DOUBLES - two \
+         segments with arbitrary double end points (generic, an end point 0..2^24 ulp off the other segment, shared end point with \
+         nearly parallel directions, nearly equal, mixed magnitude, exactly collinear dyadic), decided by exact orientation signs on \
+         the doubles and compared through Line / LineString / MultiLineString / Geometry in both orders."
             .into()
     }
 
     fn assumptions() -> Vec<String> {
         vec![
-            "inputs are exact similarity images of small-integer lattice geometries; generic irrational-looking f64 coordinates are not covered".into(),
+            "inputs are exact similarity images of small-integer lattice geometries; generic double coordinates are covered for pairs of single segments only (sub-family segments in doubles)".into(),
             "reference DE-9IM is computed by the harness's own exact cell decomposition (i128 rationals)".into(),
         ]
     }
